@@ -276,10 +276,23 @@ def _run_block(tr, stmts, ndim, sink):
             v = s.value
             while isinstance(v, ast.Call) and (unparse(v.func) in ("asnumpy", "asxp")):
                 v = v.args[0]
+            transposed = False
+            if isinstance(v, ast.Attribute) and v.attr == "T":
+                transposed, v = True, v.value
+            merged = False
             if isinstance(v, ast.Call) and isinstance(v.func, ast.Attribute) and v.func.attr == "reshape":
                 sink.setdefault("rdm-reshape", []).append(unparse(v)[:80])
-                v = v.func.value
-            sink.setdefault("rdm", []).append(tr.ev(v))
+                merged, v = True, v.func.value
+            legs = tr.ev(v)
+            if transposed:
+                # matrix transpose: of the merged (rows, columns) halves when the tensor was reshaped to a matrix, of the two axes otherwise
+                if merged and len(legs) % 2 == 0:
+                    legs = legs[len(legs) // 2:] + legs[:len(legs) // 2]
+                elif not merged:
+                    legs = legs[::-1]
+                else:
+                    raise AnalysisError(f"rdm analysis: transpose of `{unparse(v)[:60]}` not understood")
+            sink.setdefault("rdm", []).append(legs)
         elif isinstance(s, ast.If):
             t = unparse(s.test).replace(" ", "")
             if ".ndim==" in t:
@@ -326,7 +339,7 @@ def _edge_problems(edges, ndim):
 
 def rdm_rule(chk, src):
     chk.rule("rdm-network", "one- and two-site RDM chains: bra bonds meet conjugated tensors, ket bonds plain tensors, traced physical axes pair a site with its own conjugate, "
-             "the bridging step is a loop invariant, and both RDMs list (conjugated indices, plain indices) in the same order", 8)
+             "the bridging step is a loop invariant, and both RDMs are indexed (ket indices, bra indices) as documented: rho[a, b] = <a|rho|b>", 8)
     f1 = src.func(MPS, "Mps.calc_1site_rdm")
     f2 = src.func(MPS, "Mps.calc_2site_rdm")
     loops2 = [s for s in f2.node.body if isinstance(s, ast.For)]
@@ -342,11 +355,11 @@ def rdm_rule(chk, src):
         _run_block(tr, loop1[0].body, ndim, sink)
         out = sink.get("rdm", [None])[-1]
         pr = _edge_problems(tr.edges, ndim)
-        want = [("s*", 1), ("s", 1)]
+        want = [("s", 1), ("s*", 1)]
         ok = not pr and out == want and len(tr.edges) == 2 + 2 + (ndim - 3)
         conv[("1site", ndim)] = [l[0].endswith("*") for l in (out or [])]
         chk.ob("rdm-network", f"calc_1site_rdm [rank {ndim}]", ok, f1.where, pr[:2] or {"output": out, "contractions": len(tr.edges)}, {"output": want, "contractions": 4 + ndim - 3}, line=f1.node.lineno,
-               detail="1-site RDM: " + (pr[0] if pr else "output legs are not (conjugated physical, plain physical)") + " - the result is the complex conjugate / a wrong partial trace for complex states")
+               detail="1-site RDM: " + (pr[0] if pr else "output legs are not (plain physical, conjugated physical): rho[a, b] = <a|rho|b> = sum psi[a..] conj(psi[b..])") + " - the result is the transpose (complex conjugate) / a wrong partial trace for complex states")
         # ---- two site: components
         tr = CTracker({"ms": site, "<site>": site})
         sink = {}
@@ -383,12 +396,13 @@ def rdm_rule(chk, src):
         _run_block(tr, rest, ndim, sink)
         pr = _edge_problems(tr.edges, ndim)
         out = sink.get("rdm", [None])[-1]
-        want = [("i*", 1), ("j*", 1), ("i", 1), ("j", 1)]
+        want = [("i", 1), ("j", 1), ("i*", 1), ("j*", 1)]
         conv[("2site", ndim)] = [l[0].endswith("*") for l in (out or [])]
         chk.ob("rdm-network", f"calc_2site_rdm closing contraction [rank {ndim}]", not pr and out == want, f2.where, pr[:2] or out, want, line=inner[0].lineno,
-               detail="closing: (conj bond, bond) of the left block with (conj bond, bond) of the right block; rows = conjugated indices (i, j), columns = plain indices (i, j)")
-    ok = all(conv.get(("1site", n)) == [True, False] and conv.get(("2site", n)) == [True, True, False, False] for n in (3, 4))
-    chk.ob("rdm-network", "1-site and 2-site RDM use one index convention", ok, f2.where, {f"{k[0]}/{k[1]}": v for k, v in conv.items()}, "conjugated indices first in both", line=f2.node.lineno)
+               detail="closing: (conj bond, bond) of the left block with (conj bond, bond) of the right block; rows = plain (ket) indices (i, j), columns = conjugated (bra) indices (i, j): "
+                      "rho[ab, cd] = <ab|rho|cd> as documented")
+    ok = all(conv.get(("1site", n)) == [False, True] and conv.get(("2site", n)) == [False, False, True, True] for n in (3, 4))
+    chk.ob("rdm-network", "1-site and 2-site RDM use the documented index convention (ket indices, bra indices)", ok, f2.where, {f"{k[0]}/{k[1]}": v for k, v in conv.items()}, "plain (ket) indices first in both", line=f2.node.lineno)
 
 
 
